@@ -347,6 +347,12 @@ func (r *runner) oracle(path, label string, tx *lib.Transaction, bz []byte, oc o
 	}
 	msg := p.(lib.MessageI)
 	kind := msg.Name()
+	// a multisig key under which nobody signed
+	if pk, e := crypto.NewPublicKeyFromBytes(tx.Signature.PublicKey); e == nil {
+		if mk, ok := pk.(*crypto.BLS12381MultiPublicKey); ok && mk.EnabledSignerCount() == 0 {
+			r.fail("C05:multisig-no-signer-accepted", fmt.Sprintf("%s %s: accepted under a multisig key (threshold %d, %d members) with an EMPTY signer bitmap: no listed key signed, yet %s", r.o.CurCase(), label, mk.Threshold(), len(mk.PublicKeys()), d.line()), replay)
+		}
+	}
 	holds, signer := signatureHolds(tx)
 	if !holds {
 		r.fail("C05:invalid-signature-accepted:"+kind, fmt.Sprintf("%s: accepted although the signature does not verify over the transaction's sign bytes (%s path)", r.o.CurCase(), path), replay)
@@ -778,8 +784,7 @@ func (r *runner) runOpenMultisig() {
 		}
 		// nobody signs: empty bitmap, the aggregate of no signatures is the identity of G2
 		tx := w.envelope(msg, fsm.MessageSendName)
-		inf := make([]byte, crypto.BLS12381SignatureSize)
-		inf[0] = 0xc0
+		inf := g2Identity()
 		tx.Signature = &lib.Signature{PublicKey: mk0.Bytes(), Signature: inf}
 		before := len(r.o.Failures)
 		r.offer("threshold-0:no-signer:identity-signature", tx, "", nil, paths)
